@@ -22,7 +22,9 @@ PROPS = {
     "C12": {
         "timeouts_not_mine": True,
         "lean_modules": ["Props.C20b"],
-        "groups": [{"name": "render", "quick": 3000, "thorough": 80000}, {"name": "mediaL", "quick": 600, "thorough": 20000, "workers": 12}],
+        "groups": [{"name": "render", "quick": 3000, "thorough": 80000}, {"name": "mediaL", "quick": 600, "thorough": 20000, "workers": 12},
+                   # numbers typed in the real UI (also while a media hook is running): what the hook is started with
+                   {"name": "C07", "quick": 160, "thorough": 4000, "workers": 16}],
         "rule": "documents from grammars of HTML (inline styles, links, media, blockquotes, lists, headings, pre, hr, unknown tags, character-reference and raw control-character injections), Markdown, gemtext and plain text with URLs x sequences of 1..4 widths (-3..250); "
                 "every link / image / frame gets a unique label text and target from the generator; predicates on the implementation's output: the superscript number printed after a label opens (links[k-1]) that label's own target, and the numbers 1..N are all shown; non-trivial = the document has links; distinct by op content; "
                 "mediaL group: posts and actors with body links and attachment / icon / image lists, histories of SelectLink(k) for k in -1..6 (and Media, ProfilePic, Banner) on the real items, targets compared with the Link model",
@@ -130,7 +132,9 @@ PROPS = {
     },
     "C10": {
         "lean_modules": ["Props.Facts10"],
-        "groups": [{"name": "C10", "quick": 4000, "thorough": 150000}],
+        "groups": [{"name": "C10", "quick": 4000, "thorough": 150000},
+                   # remote pages over the simulator (pages named by URL, on other hosts, URLs that differ in letter case only)
+                   {"name": "C02", "quick": 600, "thorough": 20000}],
         "rule": "page chains of 0..18 embedded pages (Collection/OrderedCollection, items on the root and/or pages, empty pages with varying bias, absent/null/single-value items, wrong page types, chains ending in a non-https reference, a non-object, a non-collection or an object that would need re-fetching) x request-size sequences (one large request, constant small requests, random sizes incl. 0) x start offsets; "
                 "non-trivial = at least three pages visited; distinct by op content",
         "trusted": ["encoding/json decoding (typed tree shipped to the model)",
@@ -141,6 +145,7 @@ PROPS = {
         # the Splicer model is the merge the property describes (take_is_trace, take_exactly_once):
         # a delivery that differs from it is an item out of place
         "correspondence_is_failure": {"splice": True},
+        "lean_modules": ["Props.Facts11"],
         "groups": [{"name": "C11", "quick": 4000, "thorough": 150000},
                    # feeds over simulator-served actors and collections, through splicer.NewSplicer and the UI
                    {"name": "C07", "quick": 128, "thorough": 4000, "workers": 16}],
@@ -195,7 +200,9 @@ PROPS = {
     "C20": {
         "lean_modules": ["Props.Facts19", "Props.C20b", "Props.Facts20"],
         "groups": [{"name": "C20", "quick": 600, "thorough": 20000, "workers": 12},
-                   {"name": "media", "quick": 600, "thorough": 20000, "workers": 12}],
+                   {"name": "media", "quick": 600, "thorough": 20000, "workers": 12},
+                   # configuration files through the real parser: the hook that reaches openExternally is the configured one
+                   {"name": "C19", "quick": 1000, "thorough": 20000}],
         "rule": "hooks of 1..5 arguments drawn from exact placeholders, embedded/near placeholders, dashes and empty strings, with the program itself sometimes named like a placeholder; links with spaces, quotes, shell metacharacters, leading dashes, newlines, placeholder look-alikes; "
                 "the real ui.openExternally runs a dump program that records argv and stdin; non-trivial = at least one argument after the program; distinct by op content; "
                 "media group: posts and actors built from documents with url / attachment / icon / image link lists (typed, untyped, malformed, shorthand strings) x histories of 3..9 openings (Media, SelectLink k, ProfilePic, Banner, one of them repeated) through the real selection code and the real openExternally; non-trivial = something was selected",
